@@ -194,7 +194,7 @@ theorem w3_step (s s' : LS) (e : Ev) (hR : Ref s) (h : W3 s) (hs : s.step e = so
       · rename_i hpc
         split at hs
         · cases hs
-          refine w3_set s _ h s.insts (fun _ => rfl) i it _ hit rfl (fun _ h => h) ?_
+          refine w3_set s _ h s.insts (fun _ => rfl) i it _ hit rfl (rs_upd_keep _ _ _ (by intro h; exact h)) ?_
           intro r; left; simp [won]
         · split at hs
           · cases hs
@@ -202,11 +202,15 @@ theorem w3_step (s s' : LS) (e : Ev) (hR : Ref s) (h : W3 s) (hs : s.step e = so
             intro r; left; simp [won]
           · split at hs
             · cases hs
-              refine w3_set s _ h s.insts (fun _ => rfl) i it _ hit rfl (rs_upd_keep _ _ _ (by intro h; exact h)) ?_
-              intro r; left; simp [won]
-            · cases hs
               refine w3_set s _ h s.insts (fun _ => rfl) i it _ hit rfl (fun _ h => h) ?_
               intro r; left; simp [won]
+            · split at hs
+              · cases hs
+                refine w3_set s _ h s.insts (fun _ => rfl) i it _ hit rfl (rs_upd_keep _ _ _ (by intro h; exact h)) ?_
+                intro r; left; simp [won]
+              · cases hs
+                refine w3_set s _ h s.insts (fun _ => rfl) i it _ hit rfl (fun _ h => h) ?_
+                intro r; left; simp [won]
       · cases hs
     · cases hs
   | next i =>
@@ -1173,6 +1177,10 @@ theorem pi_step_inst (s s' : LS) (e : Ev) (hI : Inv s) (hF : FI s) (hW : W3 s) (
         have hold : ∀ a, a < it.rid → (s.req a).tag = (s.req it.rid).tag → a ∈ s.unl :=
           h.st it.rid hlt (h.a2 it.rid hil).2
         have hlate0 : NoFuture s it.rid := hF.w1 it hmem (Or.inl hpc)
+        split at hs
+        · rename_i od hod
+          exfalso
+          simp [LS.plain, LS.tame, hit, hod] at hp
         split at hs
         · rename_i hprev
           cases hs
